@@ -168,7 +168,7 @@ def sc_cancel_split(k):
             "0 cycleAtPush %d" % k, "0 root z 7a 2 0 1", "0 inlineReport", "0 child1 y 79 z", "0 drop y", "0 drop z", "0 cycle", "0 cycle", "0 stats"]
 
 
-PARKED_VARIANTS = ("plain", "second-pass", "exit", "default", "other-commit-first", "two")
+PARKED_VARIANTS = ("plain", "second-pass", "exit", "default", "other-commit-first", "two", "start-on-full")
 
 
 def sc_cancel_parked_elsewhere(variant):
@@ -179,6 +179,11 @@ def sc_cancel_parked_elsewhere(variant):
     cancelable = 0 if variant == "default" else 1
     p = ["0 spawn", "1 spawn", "0 setReporter %d" % cancelable, "0 touch", "1 touch",
          "0 root r 72 1 0 1", "0 child1 c 63 r", "0 drop c", "0 spam %d" % (CAP + 60), "0 cancel r"]
+    if variant == "start-on-full":
+        # the full queue is the creator's at root creation (the start command does not fit); cancel() comes from another
+        # thread and is consumed by a cycle before the creator sends again and finishes the root
+        return ["0 spawn", "1 spawn", "0 setReporter 1", "0 touch", "1 touch", "0 spam %d" % CAP, "0 root r 72 1 0 1", "1 cancel r", "0 cycle",
+                "0 child1 c 63 r", "0 drop c", "0 drop r", "0 cycle", "0 cycle", "0 root z 7a 3 0 1", "0 drop z", "0 cycle", "0 stats"]
     if variant == "other-commit-first":
         # a cycle handles the commit of an unrelated trace (and consumes nothing of the note) before the root finishes
         p += ["1 root q 71 2 0 1", "1 drop q", "0 cycle", "1 drop r", "0 cycle"]
